@@ -120,19 +120,18 @@ class FieldCollection(FieldBase):
         # initialize the class
         super().__init__(grid, data_arr, label=label)
 
-        if not copy_fields:
-            # link the data of the original fields back to self._data
-            for i, field in enumerate(self.fields):
-                field_shape = field.data.shape
-                field._data_flat = self._data_full[self._slices[i]]
+        # link the data of the (original or copied) fields back to self._data
+        for i, field in enumerate(self.fields):
+            field_shape = field.data.shape
+            field._data_flat = self._data_full[self._slices[i]]
 
-                # check whether the field data is based on our data field
-                if field.data.shape != field_shape:
-                    msg = "Field shapes have changed!"
-                    raise RuntimeError(msg)
-                if not np.may_share_memory(field._data_full, self._data_full):
-                    msg = "Spurious copy of data detected!"
-                    raise RuntimeError(msg)
+            # check whether the field data is based on our data field
+            if field.data.shape != field_shape:
+                msg = "Field shapes have changed!"
+                raise RuntimeError(msg)
+            if not np.may_share_memory(field._data_full, self._data_full):
+                msg = "Spurious copy of data detected!"
+                raise RuntimeError(msg)
 
         if labels is not None:
             self.labels = labels  # type: ignore
